@@ -13,7 +13,7 @@
 (*    kw \in Seq([name, nc, v])]          (as *stored* by the DSL method)  *)
 (*   [t \in {"and","or","xor"}, l, r]                                      *)
 (***************************************************************************)
-EXTENDS PyVal
+EXTENDS PyVal, Names
 
 Null == [t |-> "null"]
 Leaf(datum, pre, fn, args, kw) ==
@@ -22,8 +22,12 @@ Bin(op, l, r) == [t |-> op, l |-> l, r |-> r]
 Kw(name, nc, v) == [name |-> name, nc |-> nc, v |-> v]
 Ops == {"and", "or", "xor"}
 
-KwHas(kw, name) == \E i \in 1..Len(kw) : kw[i].name = name
-KwGet(kw, name) == kw[CHOOSE i \in 1..Len(kw) : kw[i].name = name].v
+\* keyword arguments are identified by the code points of their name (`name` is informative only:
+\* a name parsed out of a spec has no TLA+ string)
+KwHasC(kw, nc) == \E i \in 1..Len(kw) : kw[i].nc = nc
+KwGetC(kw, nc) == kw[CHOOSE i \in 1..Len(kw) : kw[i].nc = nc].v
+KwHas(kw, name) == KwHasC(kw, NC(name))
+KwGet(kw, name) == KwGetC(kw, NC(name))
 
 (***************************************************************************)
 (* python any / all / sum over a sequence of outcomes, with short circuit  *)
